@@ -9,11 +9,12 @@ Rec == ndJsonDeserialize(IOEnv.TRACE)
 Hdr == Rec[1]
 TR == Hdr.r
 TNREG == Hdr.nreg
-VARIABLES l, nbad
-tvars == <<g1, g2, gt, ev, l, nbad>>
+VARIABLES l, nbad,
+          seen      \* history: <<group, discrete logarithm, fingerprint>> of every value written so far
+tvars == <<g1, g2, gt, ev, l, nbad, seen>>
 Has(e, f) == f \in DOMAIN e
 
-TInit == Init /\ l = 2 /\ nbad = 0
+TInit == Init /\ l = 2 /\ nbad = 0 /\ seen = {}
 
 Step(e) ==
     CASE e.op = "load" -> Load(e.grp, e.d, e.k)
@@ -33,6 +34,9 @@ ObsOK(e) ==
     /\ {j \in Reg : regs2[j] = regs2[e.d]} = {e.eqs[i] : i \in 1..Len(e.eqs)}
     /\ (NIsZero(regs2[e.d]) <=> e.zero)
     /\ (Has(e, "valid") => e.valid)
+    \* over the whole history: same logarithm <=> same fingerprint (the map from abstract to concrete values
+    \* is a function, and it is injective)
+    /\ (Has(e, "fp") => \A t \in seen : t[1] = Grp(e) => ((t[2] = regs2[e.d]) <=> (t[3] = e.fp)))
 TNext == \/ /\ l <= Len(Rec)
             /\ LET e == Rec[l] IN
                  /\ Step(e)
@@ -41,10 +45,14 @@ TNext == \/ /\ l <= Len(Rec)
                                       expected_eqs |-> {j \in Reg : (IF Grp(e) = 1 THEN g1' ELSE IF Grp(e) = 2 THEN g2' ELSE gt')[j] = (IF Grp(e) = 1 THEN g1' ELSE IF Grp(e) = 2 THEN g2' ELSE gt')[e.d]},
                                       expected_zero |-> NIsZero((IF Grp(e) = 1 THEN g1' ELSE IF Grp(e) = 2 THEN g2' ELSE gt')[e.d])])>>)
                          /\ nbad' = nbad + 1
+            /\ seen' = LET e == Rec[l] IN
+                        IF Has(e, "fp") /\ ObsOK(e)
+                        THEN seen \cup {<<Grp(e), (IF Grp(e) = 1 THEN g1' ELSE IF Grp(e) = 2 THEN g2' ELSE gt')[e.d], e.fp>>}
+                        ELSE seen
             /\ l' = l + 1
          \/ /\ l = Len(Rec) + 1
             /\ PrintT(<<"TRACE-DONE", ToJson([lines |-> Len(Rec), mismatches |-> nbad])>>)
-            /\ l' = l + 1 /\ UNCHANGED <<g1, g2, gt, ev, nbad>>
+            /\ l' = l + 1 /\ UNCHANGED <<g1, g2, gt, ev, nbad, seen>>
 TSpec == TInit /\ [][TNext]_tvars
 Accepted == TLCGet("stats").diameter = Len(Rec) + 1
 =============================================================================
